@@ -111,16 +111,25 @@ func (ll *LevelList) Get(key []byte) (kv.Entry, error) {
 	return nil, kv.ErrNotFound
 }
 
-func (ll *LevelList) ScanPrefix(prefix []byte, errOut *error) iter.Seq[kv.Entry] {
+// ScanPrefixWithDeletes returns the merged entries of all tables that match the
+// prefix including deleted records. A caller that merges the result with newer
+// data (the memtables) needs them: a delete has to hide older versions of the
+// key, and is dropped only after the final merge.
+func (ll *LevelList) ScanPrefixWithDeletes(prefix []byte, errOut *error) iter.Seq[kv.Entry] {
 	tables := slices.Collect(ll.AllTablesForPrefix(prefix))
 	iters := make([]iter.Seq[kv.Entry], len(tables))
 	for i, table := range tables {
 		iters[i] = table.ScanPrefix(prefix, errOut)
 	}
 
-	// Return the merged entries without deleted records
+	return kv.MergeEntries(iters)
+}
+
+// ScanPrefix returns the merged entries of all tables that match the prefix
+// without deleted records.
+func (ll *LevelList) ScanPrefix(prefix []byte, errOut *error) iter.Seq[kv.Entry] {
 	return func(yield func(kv.Entry) bool) {
-		for entry := range kv.MergeEntries(iters) {
+		for entry := range ll.ScanPrefixWithDeletes(prefix, errOut) {
 			// Skip deleted entries
 			if entry.IsDelete() {
 				continue
